@@ -97,7 +97,8 @@ struct timer_registry {
         return true;
     }
 
-    void reset() { waits.clear(); next_id = 1; fired = cancelled = 0; }
+    // destroying a parked handler may destroy a timer it owns, whose destructor walks `waits`: empty it first
+    void reset() { auto gone = std::move(waits); waits.clear(); gone.clear(); next_id = 1; fired = cancelled = 0; }
 };
 
 class vtimer {
